@@ -4,7 +4,7 @@ from __future__ import annotations
 from hypothesis import strategies as st
 
 from vk.core import Facet
-from vk.refmodel import Language, TooLarge, canon, canon_depth, canon_is_full, canon_str
+from vk.refmodel import Language, TooLarge, canon, canon_depth, canon_is_full, canon_str, safe_canon
 from vk.sources import Unbounded, enumerate_all
 from vk.spec import Flags, spec_str, specs
 from vk.world import World, exc_bucket
@@ -51,8 +51,10 @@ def _enumerate(w, make_and_create, cap):
         n += 1
         if exc is not None:
             errors.append((trace, exc))
+            if len(errors) >= 4:  # enough: every further failing path costs a deep recursion
+                break
             continue
-        c = canon(p, w.info)
+        c = safe_canon(p, w.info)
         out.setdefault(c, [t[2] for t in trace])
     return out, complete, errors, n
 
@@ -141,9 +143,10 @@ class GrowLanguage(Facet):
     def compare(self, case, rec, w, d, ref, got, complete):
         extra = [c for c in got if c not in ref]
         for c in extra[:2]:
-            why = "deeper than d" if canon_depth(c) > d else "not in the reference language"
+            too_deep = c == ("?", "too-deep-to-traverse") or canon_depth(c) > d
+            why = "deeper than d" if too_deep else "not in the reference language"
             rec.fail(
-                f"C04/{self.name}/extra/{'too-deep' if canon_depth(c) > d else 'not-in-reference-set'}{getattr(self, 'attribution', '')}",
+                f"C04/{self.name}/extra/{'too-deep' if too_deep else 'not-in-reference-set'}{getattr(self, 'attribution', '')}",
                 f"{self.decider} creation at d={d} reaches {canon_str(c)} ({why}) via draws {got[c]}; grammar {spec_str(case['spec'])}",
             )
         if complete:
